@@ -131,7 +131,9 @@ def run(run):
     run.pmap("model_level", model_level, ml)
     items = sweep.make_items(run, CFGS, [chk_exact, "wellformed"], flags=(True, False), light=light, heavy=light,
                              strata=["cycles3"])
-    run.pmap("sweep", sweep.run_item, items, chunksize=2)
+    items += sweep.history_items(run, CFGS, [chk_exact, "wellformed"], 4 if run.thorough else 2)
+    run.pmap("sweep", sweep.run_item, sweep.order_items(items), chunksize=1)
+    run.part("validate_engine_f", lambda: sweep.validate_engine_f(run, 40 if run.thorough else 14))
     run.extra["work_items"] = len(items)
     run.extra["stubs"] = sweep.install()
 
